@@ -303,6 +303,15 @@ func (s *dataScanner) nextContainer() error {
 	if err != nil {
 		return err
 	}
+	if len(level3Block) == 0 {
+		// NOTE: series bucket is empty, if no series of this high key has field data(single field metric),
+		// flusher writes nothing(no low key offsets/footer) for it, but the series ids are still in series bitmap,
+		// so need go to next container, else series of following buckets are read from wrong bucket or lost.
+		s.lowKeyOffsets = encoding.NewFixedOffsetDecoder()
+		s.seriesEntries = nil
+		s.highContainerIdx++
+		return nil
+	}
 	if len(level3Block) <= 4 {
 		return fmt.Errorf("series entries length too short: %d", len(level3Block))
 	}
